@@ -314,7 +314,13 @@ def one_case(model, rng, be, uni, md, src, feat, ops, oc, stats, distinct, thoro
     if c.status == "refused":
         return
     if c.status == "unparsed":
-        oc.correspondence_breaks.append({"backend": be, "query": src, "note": c.note})
+        # no IR program, hence no subject for the theorem.  Ill-formed emitted C++ (C02's business) writes no
+        # rows at all, so C05 holds vacuously on it; but if MANY programs fall outside the IR the tie is gone:
+        # decided after the run by the fraction (see check()).
+        stats["unparsed:" + slug(c.note)] += 1
+        unparsed = oc.extra.setdefault("unparsed_programs", [])
+        if len(unparsed) < 10:
+            unparsed.append({"backend": be, "query": src, "note": c.note})
         return
     for f in feat:
         stats["feature:" + f] += 1
@@ -413,10 +419,16 @@ def check(tier: str, seed: int, t0: float, build: core.BuildStatus) -> int:
                "for each generated query (qgen depth 1-3 quick / 1-4 thorough, classes first/aggregate/range/selectmany allowed, plus "
                "nested-terminal templates and user-C++ queries), 3 backends.  distinct_nontrivial = distinct emitted per-event programs "
                "(sha1 of the emitted lines) of queries with >= 3 operators")
-    oc.extra = {
+    n_unparsed = sum(v for k, v in stats.items() if k.startswith("unparsed:"))
+    n_ok = sum(v for k, v in stats.items() if k.startswith("status:") and k.endswith(":ok"))
+    oc.extra.update({
         "input_distribution": {k: v for k, v in sorted(stats.items())},
         "quantifiers": {"events, member states, event lists, permutations, splits": "proved", "queries": "sampled"},
-    }
+        "unparsed_fraction": round(n_unparsed / max(1, n_unparsed + n_ok), 4),
+    })
+    if n_unparsed > 0.02 * (n_unparsed + n_ok) or n_ok == 0:
+        oc.correspondence_breaks.append({"note": f"{n_unparsed} of {n_unparsed + n_ok} emitted programs are outside the IR grammar (more than 2%): the theorems have no subject for them",
+                                         "examples": oc.extra.get("unparsed_programs", [])[:3]})
     concrete = [v for v in oc.violations if not v.no_failing_input]
     if ps.broken or oc.correspondence_breaks or core.build_hygiene_cache():
         what = ps.broken or (oc.correspondence_breaks and f"emitted program outside the IR / not decodable: {oc.correspondence_breaks[0]}") or f"hygiene: {core.build_hygiene_cache()}"
